@@ -747,7 +747,8 @@ def families(tier):
     shapes = corpus.shapes(tier)
     if tier == 'quick':
         keep = {'alloc-put', 'alloc-post-2c', 'reshape-move', 'inv-put-all',
-                'inv-post', 'aggs-put-new', 'traits-put-unknown'}
+                'inv-post', 'aggs-put-new', 'traits-put-unknown',
+                'alloc-put-2classes-p2', 'alloc-post-2c-2classes'}
         shapes = [s for s in shapes if s.name in keep]
     fams = [fam_numbers(s) for s in shapes]
     fams += [fam_special_floats(), fam_mutations(), fam_error_format(),
